@@ -67,8 +67,11 @@ VALUES = {
                       st.sampled_from([0, 0, 1, 10, 100, 123, 500, 999])).map(lambda t: {"t": "time", "v": t.isoformat()}),
     "timedelta": st.one_of(
         st.sampled_from([[0, 0, 0], [0, 0, 1], [0, 0, 999999], [-1, 86399, 999999], [-1, 0, 0], [1, 0, 0], [0, 1, 500000], [-5, 3600, 0], [999, 3661, 1],
-                         [0, 59, 0], [0, 60, 0], [0, 3599, 0], [-1, 86399, 0]]),
-        st.tuples(st.integers(-1000, 1000), st.integers(0, 86399), st.integers(0, 999999)).map(list)).map(lambda v: {"t": "timedelta", "v": v}),
+                         [0, 59, 0], [0, 60, 0], [0, 3599, 0], [-1, 86399, 0],
+                         # the whole range of the type: beyond 2**53 microseconds a float of seconds no longer holds the microseconds
+                         [999999999, 86399, 999999], [-999999999, 0, 0], [200000, 0, 1], [104250, 5, 123457], [-200000, 86399, 999999], [60000, 1, 999999]]),
+        st.tuples(st.integers(-1000, 1000), st.integers(0, 86399), st.integers(0, 999999)).map(list),
+        st.tuples(st.integers(-999999999, 999999999), st.integers(0, 86399), st.integers(0, 999999)).map(list)).map(lambda v: {"t": "timedelta", "v": v}),
     "uuid": gen.uuids,
 }
 ENUM_VALUES = {n: [{"t": "enum", "e": n, "m": m.name} for m in e] for n, e in codec.ENUMS.items()}
